@@ -89,7 +89,10 @@ func (o *Origin) serve(w http.ResponseWriter, r *http.Request) {
 	recv := time.Since(o.start)
 	req, _ := io.ReadAll(r.Body)
 	o.mu.Lock()
-	b, ok := o.paths[r.URL.Path]
+	b, ok := o.paths[r.URL.Path+"?"+r.URL.RawQuery] // a script may be keyed by path?query
+	if !ok {
+		b, ok = o.paths[r.URL.Path]
+	}
 	if !ok && o.def != nil {
 		b, ok = *o.def, true
 	}
